@@ -197,7 +197,7 @@ fn pipeline(t: &mut Tape, ctx: &mut Ctx) -> CheckResult {
                 let h = gen::diagram(t, &sz, al, ctx);
                 what = format!("lax: [{}] tensor_assign (_ ; [{}])", h.pretty(), g.pretty());
                 let l = LOH::from_strict(cur.clone());
-                let mut c = Arrow::compose(&l, &to_lax_d(&g)).ok_or_else(|| ctx.fail("compose-defined", "lax composition undefined although types match"))?;
+                let c = Arrow::compose(&l, &to_lax_d(&g)).ok_or_else(|| ctx.fail("compose-defined", "lax composition undefined although types match"))?;
                 from_lax(&c).map_err(|e| ctx.fail("output-well-formed", format!("lax compose: {e}")))?;
                 // the composite still carries its pending pairs when it is appended in place
                 let mut acc = to_lax_d(&h);
